@@ -76,6 +76,40 @@ int main(int argc, char* argv[]) {
                        pv::hexc(gamma.value(n1, n2, n3)).c_str());
             }
             printf("\n");
+        } else if (c == "checkterms") {
+            // checkterms <i> <j> <k> <l>: the two conditions that TwoParticleGFPart::compute() asserts at its end
+            // (compiled out with NDEBUG), evaluated on every part of a freshly computed TwoParticleGF
+            int i = L(t[1]), j = L(t[2]), k = L(t[3]), l = L(t[4]);
+            TwoParticleGF chi(*ed->S, *ed->H, ed->Ops->getAnnihilationOperator(i), ed->Ops->getAnnihilationOperator(j),
+                              ed->Ops->getCreationOperator(k), ed->Ops->getCreationOperator(l), *ed->rho);
+            chi.prepare(); chi.compute();
+            long nparts = 0, badnr = 0, badr = 0, negl = 0, order = 0;
+            double worst = 0, worst_thr = 0; long worst_size = 0;
+            for (std::vector<TwoParticleGFPart*>::const_iterator it = chi.parts.begin(); it != chi.parts.end(); ++it) {
+                TwoParticleGFPart& p = **it;
+                if (p.Status < TwoParticleGFPart::Computed) continue;
+                ++nparts;
+                bool nr = p.NonResonantTerms.check_terms(), rs = p.ResonantTerms.check_terms();
+                badnr += !nr; badr += !rs;
+                // which of the two conditions of check_terms fails: a stored term that is "negligible" w.r.t. the final size, or the order
+                size_t n1 = p.NonResonantTerms.data.size(), n2 = p.ResonantTerms.data.size();
+                TwoParticleGFPart::NonResonantTerm::Compare cmp1 = p.NonResonantTerms.data.key_comp();
+                const TwoParticleGFPart::NonResonantTerm* prev1 = 0;
+                for (std::set<TwoParticleGFPart::NonResonantTerm, TwoParticleGFPart::NonResonantTerm::Compare>::const_iterator q = p.NonResonantTerms.data.begin(); q != p.NonResonantTerms.data.end(); ++q) {
+                    if (p.NonResonantTerms.is_negligible(*q, n1 + 1)) { ++negl; if (worst == 0 || std::abs(q->Coeff) < worst) { worst = std::abs(q->Coeff); worst_thr = 1e-16 / (n1 + 1); worst_size = n1; } }
+                    if (prev1 && !cmp1(*prev1, *q)) ++order;
+                    prev1 = &*q;
+                }
+                TwoParticleGFPart::ResonantTerm::Compare cmp2 = p.ResonantTerms.data.key_comp();
+                const TwoParticleGFPart::ResonantTerm* prev2 = 0;
+                for (std::set<TwoParticleGFPart::ResonantTerm, TwoParticleGFPart::ResonantTerm::Compare>::const_iterator q = p.ResonantTerms.data.begin(); q != p.ResonantTerms.data.end(); ++q) {
+                    if (p.ResonantTerms.is_negligible(*q, n2 + 1)) { ++negl; double m = std::max(std::abs(q->ResCoeff), std::abs(q->NonResCoeff)); if (worst == 0 || m < worst) { worst = m; worst_thr = 1e-16 / (n2 + 1); worst_size = n2; } }
+                    if (prev2 && !cmp2(*prev2, *q)) ++order;
+                    prev2 = &*q;
+                }
+            }
+            printf("CT %d %d %d %d %ld %ld %ld %ld %ld %s %s %ld\n", i, j, k, l, nparts, badnr, badr, negl, order,
+                   pv::hexd(worst).c_str(), pv::hexd(worst_thr).c_str(), worst_size);
         } else {
             printf("UNKNOWN %s\n", c.c_str());
         }
